@@ -7,102 +7,102 @@ NOTE_COMMON = ("Trusted base: CPython's ast module; the engine's own CFG constru
 CLAIMS = {
     "C01": {
         "technique": "construction-site census + provenance of XML names; abstract skeleton tree; writer path language",
-        "text": "Static analysis, sound for the named clauses: every program-written prefix is declared; no author text reaches an element/attribute name position except at the recorded known findings; the html/head/title/model/body skeleton and model child order hold on every path of Survey.xml/xml_model; the root always carries the form id; the element writer's write language is balanced. These are necessary conditions for well-formedness of every output, which no finite test sample establishes. Also: each prefix of the author's namespaces setting is declared whatever its URI (evaluated table); an element is constructed only by the factory and only from its tag argument (constructor census); the text writer writes the escaper's own result (nothing rewritten after escaping); choice headers other than blank / spaced ones are kept.",
+        "text": "Static analysis, sound for the named clauses: every program-written prefix is declared; no author text reaches an element/attribute name position except at the recorded known findings; the html/head/title/model/body skeleton and model child order hold on every path of Survey.xml/xml_model; the root always carries the form id; the element writer's write language is balanced. These are necessary conditions for well-formedness of every output, which no finite test sample establishes. Also: each prefix of the author's namespaces setting is declared whatever its URI (evaluated table); an element is constructed only by the factory and only from its tag argument (constructor census); the text writer writes the escaper's own result (nothing rewritten after escaping); choice headers other than blank / spaced ones are kept. Round d: is_xml_tag evaluated on names around the edges of the Name production; the standard namespace prefixes (ev, xsd, jr, orx, odk) are always bound.",
         "note": NOTE_COMMON,
     },
     "C02": {
         "technique": "provenance of nodeset/ref (single path source); class table; who-may-write of cache/parent/name/children; must-call dominance of validation; abstract evaluation of the uniqueness checks",
-        "text": "Static analysis: every bind/control/repeat/setvalue/action path attribute is get_xpath() of the element that builds the instance node; every element class the builder can place builds an instance node named after itself or is skipped and emits no bind; the xpath cache has a closed set of writers and is reset on re-parenting; validate() dominates generation and must-calls the sibling/section uniqueness checks, which reject equal and case-different names on the abstract name domain. Also: the builder retains no element it has built (no memoised sections: an element has one parent link but sits in every children list it was added to).",
+        "text": "Static analysis: every bind/control/repeat/setvalue/action path attribute is get_xpath() of the element that builds the instance node; every element class the builder can place builds an instance node named after itself or is skipped and emits no bind; the xpath cache has a closed set of writers and is reset on re-parenting; validate() dominates generation and must-calls the sibling/section uniqueness checks, which reject equal and case-different names on the abstract name domain. Also: the builder retains no element it has built (no memoised sections: an element has one parent link but sits in every children list it was added to). Round d: trees with groups / repeats without rows.",
         "note": NOTE_COMMON,
     },
     "C03": {
         "technique": "sanitizer-dominance of the reference substituter; check-before-use dominance; regex syntax tree vs group use",
-        "text": "PARTIAL. Decides: every reference-bearing field reaches XML only through insert_xpaths/insert_output_values (reasoned exceptions checked); unknown/ambiguous names raise before any map read; top-level decision of the replacement function (unknown, ambiguous, last-saved, relative, absolute) by abstract evaluation; regex groups vs consumers; last-saved id/URI agreement; current() requested exactly at predicates. NOT decided: that the relative path computed by share_same_repeat_parent/_relative_path reaches the target (value-level tree arithmetic). Also, on the bounded trees: the reference inside arithmetic, twice in one expression, inside a predicate over a secondary instance (id in single / double quotes / padded -> current()), as ${last-saved#x}, and before / between / after indexed-repeat() calls resolves as the bare reference does.",
+        "text": "PARTIAL. Decides: every reference-bearing field reaches XML only through insert_xpaths/insert_output_values (reasoned exceptions checked); unknown/ambiguous names raise before any map read; top-level decision of the replacement function (unknown, ambiguous, last-saved, relative, absolute) by abstract evaluation; regex groups vs consumers; last-saved id/URI agreement; current() requested exactly at predicates. NOT decided: that the relative path computed by share_same_repeat_parent/_relative_path reaches the target (value-level tree arithmetic). Also, on the bounded trees: the reference inside arithmetic, twice in one expression, inside a predicate over a secondary instance (id in single / double quotes / padded -> current()), as ${last-saved#x}, and before / between / after indexed-repeat() calls resolves as the bare reference does. Round d: each reference pattern matches a reference to every kind of valid name; the substitution context of every call in an element method is the element itself (accepted table of 4).",
         "note": NOTE_COMMON,
     },
     "C04": {
         "technique": "dataflow over the row-loop CFG (append-sequence lattice); stack typestate by dominance; table exhaustiveness; folded type table vs independent spec table",
-        "text": "PARTIAL. Decides: on every path of the row loop a row is appended exactly once (helpers in documented position), skip paths are the documented ones; begin/end frames alias the group's children list and pops are dominated by the match check; children/choices are traversed in list order; all 112 types map to a class whose control-building matches its tag; the type table equals an independent XLSForm spec table; parameter wiring and allowed-parameter tuples equal the spec. NOT decided: run-time nesting of arbitrary interleavings beyond the discipline; loop expansion. Also: the row-loop prologue (disabled column in every truth spelling, empty rows, comment rows, rows without type) and the table-list label helper are evaluated as blocks over their documented shapes; Question.xml_control over all 32 type x calculation x trigger x label x hint combinations; the 28 metadata (preload) types against an independent table; rows handed to the loop are fresh dicts.",
+        "text": "PARTIAL. Decides: on every path of the row loop a row is appended exactly once (helpers in documented position), skip paths are the documented ones; begin/end frames alias the group's children list and pops are dominated by the match check; children/choices are traversed in list order; all 112 types map to a class whose control-building matches its tag; the type table equals an independent XLSForm spec table; parameter wiring and allowed-parameter tuples equal the spec. NOT decided: run-time nesting of arbitrary interleavings beyond the discipline; loop expansion. Also: the row-loop prologue (disabled column in every truth spelling, empty rows, comment rows, rows without type) and the table-list label helper are evaluated as blocks over their documented shapes; Question.xml_control over all 32 type x calculation x trigger x label x hint combinations; the 28 metadata (preload) types against an independent table; rows handed to the loop are fresh dicts. Round d: photo / audio / background-audio / geopoint branches evaluated as blocks (parameter subsets x existing bind / control); the meta block tail evaluated through the final return with audit / entity (C04.R8).",
         "note": NOTE_COMMON,
     },
     "C05": {
         "technique": "folded alias/conversion tables vs spec; abstract evaluation of xml_bindings as a key-preserving map; alias analysis of the type table",
-        "text": "PARTIAL. Decides: column aliases target the prescribed bind attribute; xml_bindings emits exactly one bind on the row's own xpath with exactly the row's keys, values = substituter(original | converted truth value | itext redirect), over representative bind dicts; conversion tables; type-table defaults are copied before merging; parameter->bind wiring. NOT decided: placement of cell values under nested keys by process_row/merge_dicts. Also: no function on the way from header grouping to the JSON form deletes a cell from a row (accepted table of 7 deletions); the type table's preload binds equal an independent table; a question's values never leak into the shared type table (two constructions in one evaluator state).",
+        "text": "PARTIAL. Decides: column aliases target the prescribed bind attribute; xml_bindings emits exactly one bind on the row's own xpath with exactly the row's keys, values = substituter(original | converted truth value | itext redirect), over representative bind dicts; conversion tables; type-table defaults are copied before merging; parameter->bind wiring. NOT decided: placement of cell values under nested keys by process_row/merge_dicts. Also: no function on the way from header grouping to the JSON form deletes a cell from a row (accepted table of 7 deletions); the type table's preload binds equal an independent table; a question's values never leak into the shared type table (two constructions in one evaluator state). Round d: the same branch evaluation for parameter-derived bind attributes.",
         "note": NOTE_COMMON,
     },
     "C06": {
         "technique": "string typestate raw/escaped/markup; who-may-assemble-markup census; flag/text tuple correlation; abstract evaluation of the substituter and the node factory",
-        "text": "Static typestate analysis: markup is assembled from strings only at five confirmed roles; the parse flag and the text are the two halves of one insert_output_values call at every site; insert_output_values escapes before substituting and returns only (markup,True)/(argument,False); the text writer escapes; the escaper table is the XML one and single-pass; no escaped value reaches an escaping sink except the recorded finding; the node factory parses text only under flag True. Also: static defaults (23 adversarial texts: quoted, markup-like, entity-like, padded) are the instance node's and the repeat template's content character for character; the text writer's written value is the escaper's own result.",
+        "text": "Static typestate analysis: markup is assembled from strings only at five confirmed roles; the parse flag and the text are the two halves of one insert_output_values call at every site; insert_output_values escapes before substituting and returns only (markup,True)/(argument,False); the text writer escapes; the escaper table is the XML one and single-pass; no escaped value reaches an escaping sink except the recorded finding; the node factory parses text only under flag True. Also: static defaults (23 adversarial texts: quoted, markup-like, entity-like, padded) are the instance node's and the repeat template's content character for character; the text writer's written value is the escaper's own result. Round d: a text normalised / transformed before escaping is not the cell text (derived values); sparse extra choice columns in all 24 row orders.",
         "note": NOTE_COMMON,
     },
     "C07": {
         "technique": "emit=>register decision tables by finite-domain abstract evaluation; must-call order; sentinel and id-format agreement; traversal coverage",
-        "text": "PARTIAL. Decides, exhaustively over label x media x hint x guidance (320 combinations for questions, 20 each for groups and repeats) and 48 message combinations: every jr:itext id emitted by the body/bind emitters is registered by the collectors; padding gives every language every id and form and runs before serialisation; one translation per language with the default marked once; choice ids agree across instance, registration and search redirect. NOT decided: text content per language (C08). Also: emit => register on whole trees with the real traversals and path function (names repeated across groups, media-only labels); in-line items of a search() select reference itext exactly when the list's texts are registered.",
+        "text": "PARTIAL. Decides, exhaustively over label x media x hint x guidance (320 combinations for questions, 20 each for groups and repeats) and 48 message combinations: every jr:itext id emitted by the body/bind emitters is registered by the collectors; padding gives every language every id and form and runs before serialisation; one translation per language with the default marked once; choice ids agree across instance, registration and search redirect. NOT decided: text content per language (C08). Also: emit => register on whole trees with the real traversals and path function (names repeated across groups, media-only labels); in-line items of a search() select reference itext exactly when the list's texts are registered. Round d: bind messages for groups, repeats, osm and select elements; unsuffixed messages with references filed under the survey's default language; mixed plain / translated labels in a search() list.",
         "note": NOTE_COMMON,
     },
     "C08": {
         "technique": "bounded-exhaustive abstract evaluation of the text-to-language mapping functions (question display texts, choice id enumeration, padder over 256 presence patterns, header grouping over column permutations, default-language resolution)",
-        "text": "PARTIAL, and the property itself is NOT decided: C08 is a value-level bijection over every workbook. Decides five necessary conditions exhaustively over small enumerated domains: every text a question carries is filed under its own language or written inline (320 label x media x hint x guidance shapes); each choice finds its own label under the id its item carries, also around an unlabelled choice; the padder writes '-' exactly where nothing was written and touches nothing else (all 256 presence patterns of 2 languages x 2 ids x 2 forms); the language a cell lands under does not depend on column order (every permutation of mixed plain/translated/nested column sets); unsuffixed cells are grouped under the very language the survey marks as default (setting x argument combinations). Breaking one of these shows some language another text or none; holding all of them does not prove the property. Also: loop templates are filled per language with that language's choice label (4 cases); texts are collected afresh on every render of the same survey object (render - edit - render); a header-less spacer column does not shift cells under another language's header.",
+        "text": "PARTIAL, and the property itself is NOT decided: C08 is a value-level bijection over every workbook. Decides five necessary conditions exhaustively over small enumerated domains: every text a question carries is filed under its own language or written inline (320 label x media x hint x guidance shapes); each choice finds its own label under the id its item carries, also around an unlabelled choice; the padder writes '-' exactly where nothing was written and touches nothing else (all 256 presence patterns of 2 languages x 2 ids x 2 forms); the language a cell lands under does not depend on column order (every permutation of mixed plain/translated/nested column sets); unsuffixed cells are grouped under the very language the survey marks as default (setting x argument combinations). Breaking one of these shows some language another text or none; holding all of them does not prove the property. Also: loop templates are filled per language with that language's choice label (4 cases); texts are collected afresh on every render of the same survey object (render - edit - render); a header-less spacer column does not shift cells under another language's header. Round d: shares the default-language filing and the search() item obligations.",
         "note": NOTE_COMMON,
     },
     "C09": {
         "technique": "order-preserving-flow and per-item emission by abstract evaluation; instance de-duplication table; URI convention table; receiver-field provenance of the itemset; writer/reader agreement of itemsets.csv",
-        "text": "PARTIAL. Decides on representative rows: grouping / cleaning / Itemset construction keep order, size and duplicates; each choice item emits [itextId] name [label] extras in column order; instances are declared once per (id, URI), clashes raise, search-only lists are inline, choices come last; every producer's URI follows the jr:// convention; the select control reads its own list/filter/randomize/seed/value/label (11 variants) and the external query its own; or_other literals; itemsets.csv writes every cell under its own header. NOT decided: grouping of arbitrary sheets at run time. Also: choice-filter predicates of selects and external selects ask for current()-prefixed paths; itemsets.csv loses no cell under alias spellings of the list column; the itemsets decision finds an external select at any depth; extra choice columns with non-ASCII / dotted / dashed headers are kept.",
+        "text": "PARTIAL. Decides on representative rows: grouping / cleaning / Itemset construction keep order, size and duplicates; each choice item emits [itextId] name [label] extras in column order; instances are declared once per (id, URI), clashes raise, search-only lists are inline, choices come last; every producer's URI follows the jr:// convention; the select control reads its own list/filter/randomize/seed/value/label (11 variants) and the external query its own; or_other literals; itemsets.csv writes every cell under its own header. NOT decided: grouping of arbitrary sheets at run time. Also: choice-filter predicates of selects and external selects ask for current()-prefixed paths; itemsets.csv loses no cell under alias spellings of the list column; the itemsets decision finds an external select at any depth; extra choice columns with non-ASCII / dotted / dashed headers are kept. Round d: the choices mapping is threaded through every recursive builder call; two files with one stem are rejected; sparse extra columns.",
         "note": NOTE_COMMON,
     },
     "C11": {
         "technique": "slot->sink wiring by abstract evaluation with one symbol per setting; alias table; evaluation of the defaults / meta slices of workbook_to_json over presence combinations; def-use of the fallback name; sibling call-site agreement for default_language",
-        "text": "PARTIAL. Decides: every setting lands in exactly its own output position (title, style, id, version, xmlns, prefix, delimiter, attribute::, the 16 submission combinations); settings aliases; documented defaults and 'settings override defaults' over 48 combinations; instanceID/instanceName/omit_instanceID/public_key over 64 combinations; fallback form name from the file stem; default_language plumbing. NOT decided: verbatim survival of arbitrary values through text cleaning. Also: the legacy reader entry point reads by path when it has one (file-name fallback for id / title); author namespaces declared whatever their URI.",
+        "text": "PARTIAL. Decides: every setting lands in exactly its own output position (title, style, id, version, xmlns, prefix, delimiter, attribute::, the 16 submission combinations); settings aliases; documented defaults and 'settings override defaults' over 48 combinations; instanceID/instanceName/omit_instanceID/public_key over 64 combinations; fallback form name from the file stem; default_language plumbing. NOT decided: verbatim survival of arbitrary values through text cleaning. Also: the legacy reader entry point reads by path when it has one (file-name fallback for id / title); author namespaces declared whatever their URI. Round d: settings headers written with capitals / spaces are read as their own setting (column set of the call site evaluated); the meta tail with audit / entity.",
         "note": NOTE_COMMON,
     },
     "C12": {
         "technique": "sibling cross-check of the four container backends (feature vectors by abstract evaluation); writer/reader schema agreement with DefinitionData; empty-run scanners at their limits; dispatch exhaustiveness",
-        "text": "PARTIAL, and the headline clause is NOT decided: equality of outputs across containers is value-level. Decides the structural agreement of the pyxform-side adapters: result keys are DefinitionData fields; all four backends lower-case, filter, fall back, record names, emit headers alike (blank-row handling differs: recorded finding); typed-cell normalisers agree on every value class; runs of <=20 empty columns / <=60 empty rows never truncate; every input kind of convert() is dispatched and normalised to BytesIO. Also: processors are tried with the csv reader last (it refuses nothing with commas); the dict channel keeps every DefinitionData field including the *_header rows; header-less spacer columns; Markdown sheets without rows and rows longer than the header; typed header cells.",
+        "text": "PARTIAL, and the headline clause is NOT decided: equality of outputs across containers is value-level. Decides the structural agreement of the pyxform-side adapters: result keys are DefinitionData fields; all four backends lower-case, filter, fall back, record names, emit headers alike (blank-row handling differs: recorded finding); typed-cell normalisers agree on every value class; runs of <=20 empty columns / <=60 empty rows never truncate; every input kind of convert() is dispatched and normalised to BytesIO. Also: processors are tried with the csv reader last (it refuses nothing with commas); the dict channel keeps every DefinitionData field including the *_header rows; header-less spacer columns; Markdown sheets without rows and rows longer than the header; typed header cells. Round d: the caller's explicit file_type wins; '#' inside a Markdown cell is cell text; nothing on the file-reading path is memoised; text without a Markdown table is refused by the Markdown reader.",
         "note": NOTE_COMMON,
     },
     "C13": {
         "technique": "alias closure on folded tables; regex syntax trees and constant folding of the row-type patterns over every documented spelling; abstract evaluation of header normalisation; numbering census",
-        "text": "PARTIAL. Decides: each documented equivalence class of spellings maps to one canonical value; RE_BEGIN/END_CONTROL and RE_SELECT accept exactly the alias-table spellings with space or underscore; process_header normalises each documented header shape to the documented tokens and leaves unknown columns untouched; smart quotes / whitespace cleaning on every cleaned sheet; rows are numbered by sheet position with blank rows skipped, not removed. NOT decided: commutation of the normalisations with the whole pipeline. Also: column permutations are evaluated with the default language unset and set (the plain column belongs to the default language in every order).",
+        "text": "PARTIAL. Decides: each documented equivalence class of spellings maps to one canonical value; RE_BEGIN/END_CONTROL and RE_SELECT accept exactly the alias-table spellings with space or underscore; process_header normalises each documented header shape to the documented tokens and leaves unknown columns untouched; smart quotes / whitespace cleaning on every cleaned sheet; rows are numbered by sheet position with blank rows skipped, not removed. NOT decided: commutation of the normalisations with the whole pipeline. Also: column permutations are evaluated with the default language unset and set (the plain column belongs to the default language in every order). Round d: advisory census (C13.R8); select-from-file spellings by guard evaluation; delimiter choice by evaluation.",
         "note": NOTE_COMMON,
     },
     "C16": {
         "technique": "dump table (abstract evaluation of to_json_dict per class) vs XML-read-set (AST) per class; constructor-field agreement; generation-writes intersect dump",
-        "text": "PARTIAL. Decides per element class: every slot read by XML generation survives to_json_dict with the same value or is in the explicit derivable table (two recorded findings: group bind, choice extra_data); dumped keys are constructor fields; constructor defaults are falsy; nothing non-JSON is stored in the intermediate form; generation does not clobber dumped slots (one recorded finding: search-select itemset). NOT decided: byte equality of regenerated XForms. Also: the survey-level dump carries every setting whatever else is set (20 settings x 3 entity-feature states) and the children of every element kind (list and tuple); the builder does not consume the dict it builds from.",
+        "text": "PARTIAL. Decides per element class: every slot read by XML generation survives to_json_dict with the same value or is in the explicit derivable table (two recorded findings: group bind, choice extra_data); dumped keys are constructor fields; constructor defaults are falsy; nothing non-JSON is stored in the intermediate form; generation does not clobber dumped slots (one recorded finding: search-select itemset). NOT decided: byte equality of regenerated XForms. Also: the survey-level dump carries every setting whatever else is set (20 settings x 3 entity-feature states) and the children of every element kind (list and tuple); the builder does not consume the dict it builds from. Round d: dumping leaves the survey's nested dicts untouched and returns a dict computed from the current fields (no stored dump); builder dispatch by evaluation.",
         "note": NOTE_COMMON,
     },
     "C17": {
         "technique": "raise-type census; row-citation dataflow; must-call of validators; guard analysis for a frozen list of implicit-exception shapes (K1, K2, K4, K8)",
-        "text": "PARTIAL. Decides: every raise on the conversion path is a PyXFormError (validator path excluded); which row-loop errors are built from the row number (every deviation listed as a finding); validators are on every successful path; four shapes of implicit exceptions are guarded or listed as reproduced findings (8 reproduced internal exceptions). NOT decided: absence of all internal exceptions (undecidable in general). Also: K11 (a comprehension subscripts a key before the filter that tests for it); K2 is now state-based (None is a state of the slot only if something assigns None); duplicate choice names rejected on every list shape of <= 3 choices; rows without a type rejected / comment rows skipped (row prologue evaluated as a block).",
+        "text": "PARTIAL. Decides: every raise on the conversion path is a PyXFormError (validator path excluded); which row-loop errors are built from the row number (every deviation listed as a finding); validators are on every successful path; four shapes of implicit exceptions are guarded or listed as reproduced findings (8 reproduced internal exceptions). NOT decided: absence of all internal exceptions (undecidable in general). Also: K11 (a comprehension subscripts a key before the filter that tests for it); K2 is now state-based (None is a state of the slot only if something assigns None); duplicate choice names rejected on every list shape of <= 3 choices; rows without a type rejected / comment rows skipped (row prologue evaluated as a block). Round d: file-name suffix table for select-from-file; K12 sibling traversals skip ExternalInstance; K4 one finding per function.",
         "note": NOTE_COMMON,
     },
     "C20": {
         "technique": "write-only (non-interference) of the warnings list; guard-scope census; exhaustive abstract evaluation of the translation check over 512 header sets; threshold/constant checks with oracles",
-        "text": "PARTIAL. Decides: no library code reads the warnings list (so warnings cannot alter results); each warning's guard governs only the warning (documented exceptions listed); row-level warnings cite the row; the missing-translation map is correct for all 512 subsets of {label,hint,image}x{default,en,fr}; misspelling filter (<=2, exclusions), Levenshtein on reference pairs, IANA check exclusions; wiring and order of the checks. NOT decided: the iff for row-level triggers in arbitrary forms. Also: one warning per unlabeled choice on every list shape of <= 3 choices x allow_choice_duplicates; the deprecated-disabled warning on every truth spelling (row prologue evaluated as a block).",
+        "text": "PARTIAL. Decides: no library code reads the warnings list (so warnings cannot alter results); each warning's guard governs only the warning (documented exceptions listed); row-level warnings cite the row; the missing-translation map is correct for all 512 subsets of {label,hint,image}x{default,en,fr}; misspelling filter (<=2, exclusions), Levenshtein on reference pairs, IANA check exclusions; wiring and order of the checks. NOT decided: the iff for row-level triggers in arbitrary forms. Also: one warning per unlabeled choice on every list shape of <= 3 choices x allow_choice_duplicates; the deprecated-disabled warning on every truth spelling (row prologue evaluated as a block). Round d: advisory census (C20.R6); exact sheet names are never suggested as misspellings; max-pixels advisory by branch evaluation.",
         "note": NOTE_COMMON,
     },
     "C10": {
         "technique": "complementary guards and placement by abstract evaluation on abstract defaults and small concrete trees; call-site census; tuple-index agreement",
-        "text": "PARTIAL. Decides: literal vs setvalue are complementary for every default class and both consult the classifier with (default,type); exactly two placements partitioned by repeat ancestry (evaluated on a tree with nested groups/repeats), with the right events; trigger bookkeeping tuple/map/event agreement and nesting in the triggering control. NOT decided: the lexer's classification of free text. Also: several targets behind one trigger in every order each get their own ref and only their own value; the builder only reads the dict it builds from (a second build sees the same calculation); static defaults verbatim (shared with C06.R13).",
+        "text": "PARTIAL. Decides: literal vs setvalue are complementary for every default class and both consult the classifier with (default,type); exactly two placements partitioned by repeat ancestry (evaluated on a tree with nested groups/repeats), with the right events; trigger bookkeeping tuple/map/event agreement and nesting in the triggering control. NOT decided: the lexer's classification of free text. Also: several targets behind one trigger in every order each get their own ref and only their own value; the builder only reads the dict it builds from (a second build sees the same calculation); static defaults verbatim (shared with C06.R13). Round d: select / range classes for the static-dynamic complement; trigger rows with read_only / relevance / appearance; a repeat of hidden rows keeps its body element and its setvalues.",
         "note": NOTE_COMMON,
     },
     "C14": {
         "technique": "effect analysis (who writes module state), memoisation purity, unordered-iteration flow, release-on-all-exits, shared-singleton census",
-        "text": "Static effect analysis over the whole package: no function writes a module-level mutable object; lru_cache'd functions are pure in their keys and their shared results are not mutated; generation-time writes to element state are idempotent; every iteration over a set ends in an order-insensitive consumer, sorted(), or a reasoned exception; temp files are released on all exits; the shared re.Scanner is used under a lock. These are exactly the sources of seed/history/thread dependence a test run under one seed cannot see. Also: a memoised function builds no XML node / InstanceInfo (a DOM node has one parent); process_row returns a new dict (the assumption behind 'rebound by a call = no longer the caller's').",
+        "text": "Static effect analysis over the whole package: no function writes a module-level mutable object; lru_cache'd functions are pure in their keys and their shared results are not mutated; generation-time writes to element state are idempotent; every iteration over a set ends in an order-insensitive consumer, sorted(), or a reasoned exception; temp files are released on all exits; the shared re.Scanner is used under a lock. These are exactly the sources of seed/history/thread dependence a test run under one seed cannot see. Also: a memoised function builds no XML node / InstanceInfo (a DOM node has one parent); process_row returns a new dict (the assumption behind 'rebound by a call = no longer the caller's'). Round d: the validators' temp file is uniquely named and released (shared with C18.R1).",
         "note": NOTE_COMMON,
     },
     "C15": {
         "technique": "non-interference (taint) of the formatting parameters in the XML writers, by abstract evaluation over all child shapes",
-        "text": "Static non-interference argument: both modes run the same writexml; formatting parameters never influence a branch, never reach mixed-content context, and appear only adjacent to tag boundaries in element-only content; the two serialisers differ in whitespace literals only. Holds for every form because it is a statement about the writer's code on every child shape. The element-writer model now provides firstChild / lastChild, so a writer that measures its text child is evaluated rather than refused.",
+        "text": "Static non-interference argument: both modes run the same writexml; formatting parameters never influence a branch, never reach mixed-content context, and appear only adjacent to tag boundaries in element-only content; the two serialisers differ in whitespace literals only. Holds for every form because it is a statement about the writer's code on every child shape. The element-writer model now provides firstChild / lastChild, so a writer that measures its text child is evaluated rather than refused. Round d: a serialiser performs no DOM operation besides serialising (it would happen in one mode only).",
         "note": NOTE_COMMON,
     },
     "C18": {
         "technique": "release-on-all-exits over the CFG; dominance of convert() over writes; finite decision tables by abstract evaluation",
-        "text": "Static analysis: temp-file unlink post-dominates creation on normal and exceptional exits; file writes are dominated by convert(); check_xform / CLI / _validator_args_logic decision tables are enumerated exhaustively over their abstract domains. Partial: the cleaner's regex behaviour on arbitrary stderr is not decided. Also: the itemsets decision (has_external_choices) at any depth; the error cleaner on multi-line reports (only adjacent repeats are dropped).",
+        "text": "Static analysis: temp-file unlink post-dominates creation on normal and exceptional exits; file writes are dominated by convert(); check_xform / CLI / _validator_args_logic decision tables are enumerated exhaustively over their abstract domains. Partial: the cleaner's regex behaviour on arbitrary stderr is not decided. Also: the itemsets decision (has_external_choices) at any depth; the error cleaner on multi-line reports (only adjacent repeats are dropped). Round d: decode_stream returns text for every byte sequence; unique temp name; the CLI wrapper's writes by evaluation with a recording open.",
         "note": NOTE_COMMON,
     },
     "C19": {
         "technique": "16-row decision table by finite-domain abstract evaluation; must-call dominance; same-guard checks",
-        "text": "Exhaustive over the 16 presence/absence combinations (the property's own quantifier) by abstract evaluation of the parser, constructor and XML generators, compared with the documented table; save_to / dataset validation enumerated over every guard outcome; CFG must-pass-through of the save_to validator before every row append. Also: save_to on concrete row types (a question whose type merely contains 'group' / 'repeat' is accepted, begin-group / repeat spellings rejected); author namespaces that alias a standard URI.",
+        "text": "Exhaustive over the 16 presence/absence combinations (the property's own quantifier) by abstract evaluation of the parser, constructor and XML generators, compared with the documented table; save_to / dataset validation enumerated over every guard outcome; CFG must-pass-through of the save_to validator before every row append. Also: save_to on concrete row types (a question whose type merely contains 'group' / 'repeat' is accepted, begin-group / repeat spellings rejected); author namespaces that alias a standard URI. Round d: unknown entities columns rejected with the call site's own arguments; rows without list_name; save_to validated for the meta (audit) append too.",
         "note": NOTE_COMMON,
     },
 }
